@@ -202,9 +202,9 @@ def run(run):
         glue_sets = [(1, 1), (1, 2), (2, 1), (2, 2), (3, 1), (3, 2), (2, 3)]
         extra4 = 400
     else:
-        kern = [(4, 3, "cells"), (3, 2, "iso"), (2, 2, "cells"), (1, 1, "cells")]
-        glue_sets = [(1, 1), (2, 1), (2, 2), (3, 1), (3, 2)]
-        extra4 = 60
+        kern = [(4, 3, "cells"), (4, 2, "iso"), (3, 3, "iso"), (2, 3, "cells"), (2, 2, "cells"), (1, 1, "cells"), (3, 1, "cells")]
+        glue_sets = [(1, 1), (1, 2), (2, 1), (2, 2), (3, 1), (3, 2)]
+        extra4 = 200
     run.bounds = {"kernel [S]": [{"n": n, "m": m, "part": p} for n, m, p in kern],
                   "glue [PxS] exhaustive (n, m)": glue_sets, "glue n=4 m=2 sampled shapes": extra4,
                   "values": "levels in -1..n-1 (second matrix -1..2n-1)", "weights": "vector of ones"}
